@@ -177,14 +177,114 @@ def bind_params(E, qual, args, node):
         E.mod_stack = saved
     if a.kwarg:
         bound[a.kwarg.arg] = SDict(E.new_ident(), extra)
+    # optional values are decided here (one path per alternative), so that the callee's typing cases apply
+    for name in list(bound):
+        v = bound[name]
+        if isinstance(v, Opt) and not E.spec_mode:
+            v = E.unwrap(v)
+            if isinstance(v, Opt):
+                v = None if E.branch(Z(v.isnone, BOOL), 'arg-none') else v.val
+            bound[name] = v
     return bound
 
 
+def type_matches(T, v):
+    if isinstance(v, Opt):
+        return False
+    if isinstance(T, str):
+        if T == 'none':
+            return v is None
+        if T == 'opaque':
+            return isinstance(v, Opaque)
+        if T == STR:
+            return isinstance(v, str) or (isinstance(v, Z) and v.ty == STR)
+        if T == BOOL:
+            return isinstance(v, bool) or (isinstance(v, Z) and v.ty == BOOL)
+        if T == INT:
+            return (isinstance(v, int) and not isinstance(v, bool)) or (isinstance(v, Z) and v.ty == INT)
+        if T in (REAL, XR):
+            return isinstance(v, (int, float, X)) and not isinstance(v, bool) or (isinstance(v, Z) and v.ty in (INT, REAL))
+        return False
+    tag = T[0]
+    if tag == 'const':
+        return type(v) is type(T[1]) and v == T[1]
+    if tag in ('arr', 'series', 'list', 'nd'):
+        return isinstance(v, Arr)
+    if tag == 'frame':
+        return isinstance(v, Frame) and all(c in v.cols for c in T[1])
+    if tag == 'dict':
+        return isinstance(v, SDict)
+    if tag == 'tuple':
+        return isinstance(v, tuple) and len(v) == len(T[1])
+    if tag == 'obj':
+        return isinstance(v, Obj)
+    return False
+
+
+def select_case(E, c, bound, node, short):
+    """the typing case of the callee's contract that the actual arguments fall into"""
+    cases = c.get('cases')
+    if not cases:
+        return {}
+    base = c.get('params', {})
+    cands = []
+    for case in cases:
+        types = dict(base)
+        types.update(case.get('params', {}))
+        if all(type_matches(T, bound.get(p)) for p, T in types.items() if p in bound):
+            cands.append(case)
+    env = dict(bound)
+    undecided = []
+    for case in cands:
+        reqs = list(case.get('requires', []))
+        for key, rq in (c.get('case_requires') or {}).items():
+            if key in (case.get('label') or ''):
+                reqs += list(rq)
+        # only the *discriminating* requirements (those of the case) are examined here
+        if not reqs:
+            return case
+        t = z3.And(*[E.spec_bool(r, env) for r in reqs]) if reqs else z3.BoolVal(True)
+        E.solver.push()
+        E.solver.add(z3.Not(t))
+        E.solver.set('timeout', 2000)
+        r1 = E.solver.check()
+        E.solver.pop()
+        if r1 == z3.unsat:
+            return case
+        E.solver.push()
+        E.solver.add(t)
+        r2 = E.solver.check()
+        E.solver.pop()
+        if r2 == z3.unsat:
+            continue
+        undecided.append((case, t))
+    if not undecided:
+        raise Unsupported('no contract case of %s matches the arguments at line %s' % (short, getattr(node, 'lineno', '?')))
+    # helper preconditions of the case become obligations of the caller (first undecided candidate whose
+    # discriminating requirement is satisfiable; remaining ones are explored as alternatives)
+    k = E.choose(len(undecided), 'callee-case') if len(undecided) > 1 else 0
+    case, t = undecided[k]
+    if len(undecided) > 1:
+        E.assume(t)
+        if not E.feasible():
+            from .engine import Infeasible
+            raise Infeasible()
+        return dict(case, requires=[])
+    return case
+
+
 def call_contract(E, qual, args, node):
-    c = E.contracts[qual]
+    c0 = E.contracts[qual]
     bound = bind_params(E, qual, args, node)
     short = qual.replace('bycycle.', '')
     # the callee's view: choose the typing case that matches the actual arguments
+    case = select_case(E, c0, bound, node, short)
+    c = dict(c0)
+    c['requires'] = list(c0.get('requires', [])) + list(case.get('requires', []))
+    c['ensures'] = list(c0.get('ensures', [])) + list(case.get('ensures', []))
+    r_ = dict(c0.get('raises', {}))
+    r_.update(case.get('raises', {}))
+    c['raises'] = r_
     env = dict(bound)
     env['__call__'] = True
     for r in c.get('requires', []):
@@ -547,7 +647,9 @@ def np_diff(E, args, node):
                 return f(i)
             finally:
                 E.spec_mode -= 1
-        return E.new_arr(z3.simplify(length), ty, clo)
+        r = E.new_arr(z3.simplify(length), ty, clo)
+        E.set_seq(r, 'seq_diff', E.seq(a))
+        return r
     if pre is not None and app is not None and not isinstance(pre, Arr) and not isinstance(app, Arr):
         p, q = num(pre), num(app)
 
@@ -687,7 +789,9 @@ def arr_astype(E, a, args, node):
     t = args.pos[0]
     if isinstance(t, Ref) and t.qual == 'builtins.int':
         if a.ty in (BOOL, INT):
-            return map_arr(E, [a], lambda e: Z(to_int(e), INT), node)
+            r = map_arr(E, [a], lambda e: Z(to_int(e), INT), node)
+            E.set_seq(r, 'seq_astype_int', E.seq(a))
+            return r
     if isinstance(t, Ref) and t.qual == 'builtins.bool':
         return map_arr(E, [a], lambda e: Z(zbool(e), BOOL), node)
     raise Unsupported('astype(%r)' % (t,))
@@ -803,13 +907,187 @@ def columns_get_loc(E, mk, args, node):
     return Marker('colidx', mk.obj, name)
 
 
+# ------------------------------------------------------------------------------------------------
+# reductions as uninterpreted functions of the materialised array (their defining axioms are lemmas)
+# ------------------------------------------------------------------------------------------------
+from .values import XRS  # noqa: E402
+
+_RED = {}
+
+
+def reduction(name, ty, ret):
+    """uninterpreted reduction NAME_ty(array, n) -> ret sort"""
+    key = (name, ty)
+    if key not in _RED:
+        from .values import sort_of
+        _RED[key] = z3.Function('%s_%s' % (name, ty), z3.ArraySort(z3.IntSort(), sort_of(ty)), z3.IntSort(), ret)
+    return _RED[key]
+
+
+def np_mean_arr(E, a, node):
+    from .values import SeqSort
+    f = E.seq_fn('seq_mean', SeqSort, XRS)
+    return X(f(E.seq(a)))
+
+
+@libfn('numpy.mean')
+def np_mean(E, args, node):
+    v = args.pos[0]
+    if isinstance(v, Arr):
+        return np_mean_arr(E, v, node)
+    items = _seq_items(v)
+    if items:
+        xs = [xops.to_x(_norm_elem(e)) for e in items]
+        s = xs[0]
+        for e in xs[1:]:
+            s = xops.add(s, e)
+        return xops.div(s, xops.to_x(lift(len(xs))))
+    raise Unsupported('np.mean(%r)' % (v,))
+
+
+@libfn('numpy.sum')
+def np_sum(E, args, node):
+    v = args.pos[0]
+    if isinstance(v, Arr):
+        n = v.n if not isinstance(v.n, int) else z3.IntVal(v.n)
+        from .values import sort_of
+        ret = XRS if v.ty == XR else (z3.RealSort() if v.ty == REAL else z3.IntSort())
+        f = reduction('sum', v.ty, ret)
+        t = f(E.mat(v), n)
+        return X(t) if v.ty == XR else Z(t, REAL if v.ty == REAL else INT)
+    raise Unsupported('np.sum(%r)' % (v,))
+
+
+@libfn('numpy.abs')
+def np_abs(E, args, node):
+    v = args.pos[0]
+    if isinstance(v, Arr):
+        return map_arr(E, [v], lambda e: b_abs(E, CallArgs([e], {}), node), node)
+    return b_abs(E, args, node)
+
+
 @method('Arr.rank')
-def series_rank(E, a, args, node):
-    """Series.rank(): average rank, nan stays nan.  avg_rank(v, i) = #{j: v[j] < v[i]} + (#{j: v[j] == v[i]} + 1)/2,
-    exposed through an uninterpreted function with its range and order axioms."""
-    raise Unsupported('rank: see contracts (handled as spec function)')
+def series_rank2(E, a, args, node):
+    """Series.rank(): average rank among the non-nan values; nan stays nan (assumed contract, conformance-tested)"""
+    f = reduction('avgrank', a.ty, z3.ArraySort(z3.IntSort(), XRS))
+    n = a.n if not isinstance(a.n, int) else z3.IntVal(a.n)
+    R = f(E.arr_term(a), n)
+    return E.new_arr(a.n, XR, lambda i: X(z3.Select(R, i)), 'series')
 
 
-@method('str.format')
-def str_format(E, s, args, node):
-    return Opaque(z3.Const(fresh_name('fmt'), ValSort), 'formatted string')
+@method('Frame.to_dict')
+def frame_to_dict(E, f, args, node):
+    if args.pos and args.pos[0] == 'records':
+        return Marker('records', f)
+    raise Unsupported('to_dict(%r)' % (args.pos,))
+
+
+@method('Arr.append')
+def list_append(E, a, args, node):
+    if a.kind != 'list':
+        raise Unsupported('append on %s' % a.kind)
+    E.mutate(a.ident, node, 'list.append')
+    v = _norm_elem(args.pos[0])
+    if a.ty == XR:
+        v = xops.to_x(v)
+    old = E.st.heap[a.ident]
+    n = a.n if not isinstance(a.n, int) else z3.IntVal(a.n)
+    E.st.heap[a.ident] = lambda j, old=old, n=n, v=v: E.ite(j == n, v, old(j))
+    a.shape = (z3.simplify(n + 1),)
+    return None
+
+
+@method('PyList.append')
+def pylist_append(E, lst, args, node):
+    E.mutate(lst.ident, node, 'list.append')
+    lst.items.append(args.pos[0])
+    return None
+
+
+@libfn('pandas.DataFrame')
+def pd_dataframe(E, args, node):
+    if args.pos or args.kw:
+        raise Unsupported('DataFrame(...) with arguments')
+    return Frame(E.new_ident(), None, {})
+
+
+@libfn('pandas.concat')
+def pd_concat(E, args, node):
+    objs = args.pos[0]
+    axis = args.kw.get('axis', 0)
+    items = objs.items if isinstance(objs, PyList) else list(objs)
+    if axis == 1 and all(isinstance(f, Frame) for f in items):
+        n = items[0].n
+        cols = {}
+        for f in items:
+            if f.n is None:
+                continue
+            if n is None:
+                n = f.n
+            # frames produced inside one analysis share the default RangeIndex: equal row counts are required
+            E.oblige('lib-pre', _eq_len(n, f.n), node, 'concat(axis=1): equal number of rows')
+            for c, a in f.cols.items():
+                if c in cols:
+                    raise Unsupported('duplicate column %s in concat' % c)
+                cols[c] = E.snapshot(a, kind='series')
+        return Frame(E.new_ident(), n, cols)
+    raise Unsupported('pd.concat variant')
+
+
+def opt_terms(E, v, ty):
+    """(isnone, value) z3 terms of an optional scalar"""
+    from .values import sort_of
+    if v is None:
+        return z3.BoolVal(True), {INT: z3.IntVal(0), REAL: z3.RealVal(0)}[ty]
+    if isinstance(v, Opt):
+        zero = {INT: z3.IntVal(0), REAL: z3.RealVal(0)}[ty]
+        return v.isnone, z3.If(v.isnone, zero, (to_real(lift(v.val)) if ty == REAL else to_int(lift(v.val))))
+    z = lift(v)
+    return z3.BoolVal(False), (to_real(z) if ty == REAL else to_int(z))
+
+
+EMPTY_KW = z3.Const('empty_kwargs', ValSort)
+
+
+def kwargs_term(E, args, drop=()):
+    """a Val term standing for the ** keyword arguments handed to an external function"""
+    terms = []
+    for d in args.star_kw:
+        if isinstance(d, Opaque):
+            terms.append(d.t)
+        elif isinstance(d, SDict):
+            if any(not (isinstance(p, bool) and not p) for p, _ in d.items.values()):
+                raise Unsupported('** of a non-empty symbolic dict to an external function')
+        else:
+            raise Unsupported('** of %r' % (d,))
+    if not terms:
+        return EMPTY_KW
+    if len(terms) == 1:
+        return terms[0]
+    raise Unsupported('several ** arguments')
+
+
+@libfn('neurodsp.burst.detect_bursts_dual_threshold', 'neurodsp.burst.dualthresh.detect_bursts_dual_threshold')
+def nd_dual_threshold(E, args, node):
+    """assumed contract: a boolean array of len(sig), a function of (sig, fs, amp thresholds, band, minimum cycle
+    count or None, minimum duration or None, filter options); ValueError unless 0 <= lo <= hi (own range checks)"""
+    from .values import SeqSort
+    sig = args.get(0, 'sig')
+    fs = lift(args.get(1, 'fs'))
+    dual = args.get(2, 'dual_thresh')
+    f_range = args.get(3, 'f_range')
+    mnc = args.get(4, 'min_n_cycles', 3)
+    dur = args.get(5, 'min_burst_duration', None)
+    fk = kwargs_term(E, args)
+    mn, mv = opt_terms(E, mnc, INT)
+    dn, dv = opt_terms(E, dur, REAL)
+    a0, a1 = lift(dual[0]), lift(dual[1])
+    f0, f1 = lift(f_range[0]), lift(f_range[1])
+    f = E.seq_fn('dual_threshold', SeqSort, z3.RealSort(), z3.RealSort(), z3.RealSort(), z3.RealSort(), z3.RealSort(),
+                 z3.BoolSort(), z3.IntSort(), z3.BoolSort(), z3.RealSort(), ValSort, SeqSort)
+    sx = f(E.seq(sig), to_real(fs), to_real(a0), to_real(a1), to_real(f0), to_real(f1), mn, mv, dn, dv, fk)
+    at = E.seq_fn('seq_at_bool', SeqSort, z3.IntSort(), z3.BoolSort())
+    r = E.new_arr(sig.n, BOOL, lambda i: Z(at(sx, i), BOOL))
+    r.sx, r.sx_heap = sx, E.st.heap[r.ident]
+    E.st.calls.append(('neurodsp.burst.detect_bursts_dual_threshold', {'sx': sx}, r))
+    return r
